@@ -1,2 +1,606 @@
-(* proofs about the KeyedSet model: under construction *)
-From SC Require Import KS.Model KS.Spec.
+(* Proofs about the KeyedSet model: map laws of the dict primitives,
+   representation invariant, refinement of every operation to the map
+   specification, atomicity, typed invariant, set algebra on keys. *)
+From Coq Require Import List ZArith Bool Lia Permutation ZifyBool.
+From SC Require Import Base.Res Base.PyList Base.ListLemmas KS.Model KS.Spec.
+Import ListNotations.
+Open Scope Z_scope.
+
+Section Proofs.
+  Context {item K : Type}.
+  Variable key : item -> K.
+  Variable keqb : K -> K -> bool.
+  Variable ieqb : item -> item -> bool.
+  Variable valid : item -> bool.
+  Variable as_key : item -> option K.
+  Variable as_item : K -> option item.
+  Variable key_of_key : K -> option K.
+  (* keys and items are values: == decides equality *)
+  Hypothesis keqb_eq : forall a b, keqb a b = true <-> a = b.
+  Hypothesis ieqb_eq : forall a b, ieqb a b = true <-> a = b.
+  (* an item that can itself be used as a dictionary key is its own key, and
+     the only item with that key (self-keyed items) *)
+  Hypothesis as_key_self : forall x k, as_key x = Some k ->
+    k = key x /\ forall y, key y = k -> y = x.
+  (* the key function, where it is defined on a bare key, returns that key *)
+  Hypothesis key_of_key_id : forall k k', key_of_key k = Some k' -> k' = k.
+
+  Notation dict := (@dict item K).
+  Notation arg := (@arg item K).
+  Notation op := (@op item K).
+  Notation out := (@out item K).
+  Notation lookup := (@dict_get item K keqb).
+  Notation has := (@dict_mem item K keqb).
+  Notation put := (@dict_set item K keqb).
+  Notation drop := (@dict_del item K keqb).
+  Notation update := (@dict_update item K keqb).
+  Notation the_map := (@build item K key keqb).
+  Notation keys := (map (@fst K item)).
+  Notation contains := (contains key keqb ieqb as_key as_item key_of_key).
+  Notation discard := (discard key keqb ieqb as_key as_item key_of_key).
+  Notation member := (member key keqb ieqb).
+  Notation denote := (denote key).
+
+  Definition pairs (xs : list item) : dict := map (fun x => (key x, x)) xs.
+
+  (* ---------------- booleans ---------------- *)
+  Lemma keqb_refl k : keqb k k = true.
+  Proof. now apply keqb_eq. Qed.
+  Lemma keqb_neq a b : keqb a b = false <-> a <> b.
+  Proof.
+    split; intro H.
+    - intro E. apply keqb_eq in E. congruence.
+    - destruct (keqb a b) eqn:E; auto. apply keqb_eq in E. contradiction.
+  Qed.
+  Lemma keqb_sym a b : keqb a b = keqb b a.
+  Proof.
+    destruct (keqb a b) eqn:E, (keqb b a) eqn:E'; auto.
+    - apply keqb_eq in E. subst. rewrite keqb_refl in E'. discriminate.
+    - apply keqb_eq in E'. subst. rewrite keqb_refl in E. discriminate.
+  Qed.
+  Lemma ieqb_refl x : ieqb x x = true.
+  Proof. now apply ieqb_eq. Qed.
+  Lemma ieqb_neq a b : ieqb a b = false <-> a <> b.
+  Proof.
+    split; intro H.
+    - intro E. apply ieqb_eq in E. congruence.
+    - destruct (ieqb a b) eqn:E; auto. apply ieqb_eq in E. contradiction.
+  Qed.
+  Lemma ieqb_sym a b : ieqb a b = ieqb b a.
+  Proof.
+    destruct (ieqb a b) eqn:E, (ieqb b a) eqn:E'; auto.
+    - apply ieqb_eq in E. subst. rewrite ieqb_refl in E'. discriminate.
+    - apply ieqb_eq in E'. subst. rewrite ieqb_refl in E. discriminate.
+  Qed.
+  Lemma bool_iff (a b : bool) : (a = true <-> b = true) -> a = b.
+  Proof. destruct a, b; intuition congruence. Qed.
+
+  (* ================= map laws of the dict primitives ================= *)
+  Lemma has_lookup k d : has k d = match lookup k d with Some _ => true | None => false end.
+  Proof.
+    unfold dict_mem, dict_get. induction d as [|[k' y] d IH]; simpl; auto.
+    destruct (keqb k k'); simpl; auto.
+  Qed.
+
+  Lemma has_In k d : has k d = true <-> In k (keys d).
+  Proof.
+    unfold dict_mem. rewrite existsb_exists, in_map_iff. split.
+    - intros [p [Hp E]]. apply keqb_eq in E. exists p; auto.
+    - intros [p [E Hp]]. exists p; split; auto. apply keqb_eq; auto.
+  Qed.
+
+  Lemma lookup_In k y d : lookup k d = Some y -> In (k, y) d.
+  Proof.
+    unfold dict_get. destruct (find _ d) as [[k' z]|] eqn:F; simpl; [|discriminate].
+    intro E; inversion E; subst. apply find_some in F. destruct F as [F E'].
+    simpl in E'. apply keqb_eq in E'. now subst.
+  Qed.
+
+  Lemma lookup_None k d : lookup k d = None <-> ~ In k (keys d).
+  Proof.
+    pose proof (has_In k d) as H. rewrite has_lookup in H.
+    destruct (lookup k d); split; intro H1; try congruence.
+    - exfalso. apply H1. apply H. reflexivity.
+    - intro H2. apply H in H2. discriminate.
+  Qed.
+
+  Lemma In_lookup k y d : NoDup (keys d) -> In (k, y) d -> lookup k d = Some y.
+  Proof.
+    unfold dict_get. induction d as [|[k' z] d IH]; simpl; intros N H; [contradiction|].
+    inversion N as [|? ? Hk N']; subst.
+    destruct (keqb k k') eqn:E.
+    - apply keqb_eq in E. subst. destruct H as [H|H]; [now inversion H|].
+      exfalso. apply Hk. apply in_map_iff. exists (k', y); auto.
+    - destruct H as [H|H]; [inversion H; subst; rewrite keqb_refl in E; discriminate|]. auto.
+  Qed.
+
+  (* lookup after put / drop *)
+  Lemma lookup_put_same k x d : lookup k (put k x d) = Some x.
+  Proof.
+    unfold dict_set. destruct (has k d) eqn:M.
+    - unfold dict_mem, dict_get in *. induction d as [|[k' z] d IH]; simpl in *; [discriminate|].
+      destruct (keqb k k') eqn:E; simpl; rewrite E; simpl; auto.
+    - unfold dict_mem, dict_get in *. induction d as [|[k' z] d IH]; simpl in *.
+      + now rewrite keqb_refl.
+      + destruct (keqb k k') eqn:E; simpl in *; [discriminate|auto].
+  Qed.
+
+  Lemma lookup_put_other k k' x d : k <> k' -> lookup k' (put k x d) = lookup k' d.
+  Proof.
+    intro N. unfold dict_set. destruct (has k d).
+    - unfold dict_get. induction d as [|[j z] d IH]; simpl; auto.
+      destruct (keqb k j) eqn:E; simpl.
+      + apply keqb_eq in E. subst j. assert (keqb k' k = false) as -> by (apply keqb_neq; auto).
+        exact IH.
+      + destruct (keqb k' j); simpl; auto.
+    - unfold dict_get. induction d as [|[j z] d IH]; simpl.
+      + assert (keqb k' k = false) as -> by (apply keqb_neq; auto). reflexivity.
+      + destruct (keqb k' j); simpl; auto.
+  Qed.
+
+  Lemma lookup_put k k' x d :
+    lookup k' (put k x d) = if keqb k' k then Some x else lookup k' d.
+  Proof.
+    destruct (keqb k' k) eqn:E.
+    - apply keqb_eq in E. subst. apply lookup_put_same.
+    - apply lookup_put_other. apply keqb_neq in E. auto.
+  Qed.
+
+  Lemma lookup_drop k k' d :
+    lookup k' (drop k d) = if keqb k' k then None else lookup k' d.
+  Proof.
+    unfold dict_del, dict_get. induction d as [|[j z] d IH]; simpl.
+    - destruct (keqb k' k); reflexivity.
+    - destruct (keqb k j) eqn:E; simpl.
+      + apply keqb_eq in E. subst j. rewrite IH. destruct (keqb k' k); reflexivity.
+      + destruct (keqb k' j) eqn:E2; simpl; auto.
+        apply keqb_eq in E2. subst j. rewrite keqb_sym, E. reflexivity.
+  Qed.
+
+  (* the order of keys: put on an existing key keeps every position, a new
+     key goes last; drop removes one position *)
+  Lemma keys_put k x d :
+    keys (put k x d) = if has k d then keys d else keys d ++ [k].
+  Proof.
+    unfold dict_set. destruct (has k d).
+    - rewrite map_map. apply map_ext. intros [j z]. simpl. destruct (keqb k j); reflexivity.
+    - now rewrite map_app.
+  Qed.
+
+  Lemma keys_drop k d : keys (drop k d) = filter (fun j => negb (keqb k j)) (keys d).
+  Proof.
+    unfold dict_del. induction d as [|[j z] d IH]; simpl; auto.
+    destruct (keqb k j); simpl; congruence.
+  Qed.
+
+  Lemma NoDup_keys_put k x d : NoDup (keys d) -> NoDup (keys (put k x d)).
+  Proof.
+    intro N. rewrite keys_put. destruct (has k d) eqn:M; auto.
+    eapply Permutation_NoDup; [apply Permutation_cons_append|]. constructor; auto.
+    intro H. apply has_In in H. congruence.
+  Qed.
+
+  Lemma NoDup_keys_drop k d : NoDup (keys d) -> NoDup (keys (drop k d)).
+  Proof. intro N. rewrite keys_drop. now apply NoDup_filter. Qed.
+
+  (* two maps with the same key order and the same lookups are the same map *)
+  Lemma dict_ext (a : dict) : forall b : dict,
+    keys a = keys b -> (forall k, lookup k a = lookup k b) -> NoDup (keys a) -> a = b.
+  Proof.
+    induction a as [|[k x] a IH]; intros [|[k' x'] b] Hk Hl N; simpl in *; try discriminate; auto.
+    inversion Hk; subst k'. inversion N as [|? ? Hn N']; subst.
+    assert (x = x').
+    { specialize (Hl k). unfold dict_get in Hl. simpl in Hl. rewrite keqb_refl in Hl.
+      simpl in Hl. congruence. }
+    subst x'. f_equal. apply IH; auto.
+    intro j. specialize (Hl j). unfold dict_get in *. simpl in Hl.
+    destruct (keqb j k) eqn:E; auto.
+    apply keqb_eq in E. subst j.
+    assert (A : lookup k a = None) by (now apply lookup_None).
+    assert (B : lookup k b = None) by (apply lookup_None; congruence).
+    unfold dict_get in A, B. congruence.
+  Qed.
+
+  Lemma filter_all {A} (f : A -> bool) l : (forall x, In x l -> f x = true) -> filter f l = l.
+  Proof.
+    induction l as [|a l IH]; simpl; intro H; auto.
+    rewrite H by auto. f_equal. apply IH. auto.
+  Qed.
+
+  Lemma drop_absent k d : has k d = false -> drop k d = d.
+  Proof.
+    intro M. unfold dict_del. apply filter_all. intros [j z] Hj. simpl.
+    destruct (keqb k j) eqn:E; auto. apply keqb_eq in E. subst j.
+    assert (has k d = true); [|congruence]. apply has_In. apply in_map_iff. exists (k, z); auto.
+  Qed.
+
+  (* ================= the representation invariant ================= *)
+  (* keys are unique and every stored item sits under its own key *)
+  Definition Inv (d : dict) : Prop :=
+    NoDup (keys d) /\ Forall (fun p => fst p = key (snd p)) d.
+  (* typed containers: every stored item passes the type check *)
+  Definition TInv (d : dict) : Prop := forallb valid (vals d) = true.
+
+  Lemma inv_nil : Inv [].
+  Proof. split; constructor. Qed.
+
+  Lemma inv_tail p d : Inv (p :: d) -> Inv d.
+  Proof. intros [N F]. inversion N; inversion F; subst. split; auto. Qed.
+
+  Lemma inv_key d k y : Inv d -> In (k, y) d -> k = key y.
+  Proof. intros [_ F] H. rewrite Forall_forall in F. apply (F _ H). Qed.
+
+  Lemma inv_lookup_key d k y : Inv d -> lookup k d = Some y -> k = key y.
+  Proof. intros I H. apply lookup_In in H. eapply inv_key; eauto. Qed.
+
+  Lemma inv_pairs d : Inv d -> d = pairs (vals d).
+  Proof.
+    intros [_ F]. unfold pairs, vals. rewrite map_map. induction F as [|[k y] d H F IH]; simpl; auto.
+    simpl in H. subst. f_equal. exact IH.
+  Qed.
+
+  Lemma inv_put d x : Inv d -> Inv (put (key x) x d).
+  Proof.
+    intros [N F]. split; [now apply NoDup_keys_put|].
+    unfold dict_set. destruct (has (key x) d).
+    - rewrite Forall_forall in *. intros p Hp. apply in_map_iff in Hp.
+      destruct Hp as [[j z] [E Hq]]. simpl in E. destruct (keqb (key x) j) eqn:Ek; subst p; simpl.
+      + apply keqb_eq in Ek. auto.
+      + apply (F _ Hq).
+    - apply Forall_app. split; auto.
+  Qed.
+
+  Lemma inv_filter f d : Inv d -> Inv (filter f d).
+  Proof.
+    intros [N F]. split.
+    - clear F. induction d as [|[k y] d IH]; simpl in *; [constructor|].
+      inversion N; subst. destruct (f (k, y)); simpl; auto. constructor; auto.
+      intro H. apply H1. apply in_map_iff in H. destruct H as [p [E Hp]].
+      apply filter_In in Hp. apply in_map_iff. exists p; tauto.
+    - rewrite Forall_forall in *. intros p Hp. apply filter_In in Hp. apply F. tauto.
+  Qed.
+
+  Lemma inv_drop d k : Inv d -> Inv (drop k d).
+  Proof. apply inv_filter. Qed.
+
+  Lemma inv_pairs_nodup xs : NoDup (map key xs) -> Inv (pairs xs).
+  Proof.
+    intro N. split.
+    - unfold pairs. rewrite map_map. exact N.
+    - unfold pairs. apply Forall_forall. intros p Hp. apply in_map_iff in Hp.
+      destruct Hp as [x [E _]]. now subst.
+  Qed.
+
+  Lemma inv_vals_nodup d : Inv d -> NoDup (map key (vals d)).
+  Proof.
+    intro I. pose proof I as [N _]. rewrite (inv_pairs d I) in N.
+    unfold pairs in N. rewrite map_map in N. exact N.
+  Qed.
+
+  Lemma tinv_filter f d : TInv d -> TInv (filter f d).
+  Proof.
+    unfold TInv, vals. rewrite !forallb_forall. intros H x Hx.
+    apply in_map_iff in Hx. destruct Hx as [p [E Hp]]. apply filter_In in Hp.
+    apply H. apply in_map_iff. exists p; tauto.
+  Qed.
+
+  Lemma tinv_put d k x : valid x = true -> TInv d -> TInv (put k x d).
+  Proof.
+    unfold TInv, vals. rewrite !forallb_forall. intros V H y Hy.
+    apply in_map_iff in Hy. destruct Hy as [[j z] [E Hp]]. simpl in E. subst z.
+    unfold dict_set in Hp. destruct (has k d).
+    - apply in_map_iff in Hp. destruct Hp as [[j' z'] [E Hq]].
+      destruct (keqb k (fst (j', z'))); inversion E; subst; auto.
+      apply H. apply in_map_iff. exists (j, y); auto.
+    - apply in_app_iff in Hp. destruct Hp as [Hp|[Hp|[]]].
+      + apply H. apply in_map_iff. exists (j, y); auto.
+      + inversion Hp; subst; auto.
+  Qed.
+
+  Lemma lookup_first k y d : lookup k ((k, y) :: d) = Some y.
+  Proof. unfold dict_get. simpl. now rewrite keqb_refl. Qed.
+
+  Lemma inv_lookup_own d y : Inv d -> In y (vals d) -> lookup (key y) d = Some y.
+  Proof.
+    intros I H. apply in_map_iff in H. destruct H as [[k z] [E Hp]]. simpl in E. subst z.
+    pose proof (inv_key d k y I Hp). subst k. apply In_lookup; auto. apply I.
+  Qed.
+  (* ================= item-or-key resolution ================= *)
+  (* __contains__ (try as key, then as item) is membership of the map *)
+  Lemma contains_member enf d a : Inv d -> contains enf d a = member enf d a.
+  Proof.
+    intro I. unfold Model.contains, Spec.member. destruct a as [x|k]; simpl.
+    - destruct (as_key x) as [k|] eqn:A.
+      + destruct (as_key_self x k A) as [-> U]. rewrite has_lookup.
+        destruct (lookup (key x) d) as [y|] eqn:L; simpl; auto.
+        assert (y = x).
+        { apply U. symmetry. eapply inv_lookup_key; eauto. }
+        subst. now rewrite ieqb_refl, orb_true_r.
+      + reflexivity.
+    - rewrite has_lookup. destruct (lookup k d) as [y|] eqn:L; simpl; auto.
+      destruct (key_of_key k) as [k'|] eqn:Kk; auto.
+      apply key_of_key_id in Kk. subst k'. now rewrite L.
+  Qed.
+
+  (* discard removes the denoted key when the argument is a member *)
+  Lemma discard_spec enf d a : Inv d ->
+    discard enf d a = if member enf d a then drop (denote a) d else d.
+  Proof.
+    intro I. unfold Model.discard, Model.discard_as_item, Spec.member. destruct a as [x|k]; simpl.
+    - destruct (as_key x) as [k|] eqn:A.
+      + destruct (as_key_self x k A) as [-> U]. rewrite has_lookup.
+        destruct (lookup (key x) d) as [y|] eqn:L; simpl; auto.
+        assert (y = x).
+        { apply U. symmetry. eapply inv_lookup_key; eauto. }
+        subst. now rewrite ieqb_refl, orb_true_r.
+      + destruct (lookup (key x) d); auto.
+    - rewrite has_lookup. destruct (lookup k d) as [y|] eqn:L; simpl; auto.
+      destruct (key_of_key k) as [k'|] eqn:Kk; auto.
+      apply key_of_key_id in Kk. subst k'. now rewrite L.
+  Qed.
+
+  Lemma getitem_spec d a : Inv d ->
+    getitem key keqb as_key key_of_key d a =
+      match lookup (denote a) d with Some y => Ok y | None => Err (miss key_of_key a) end.
+  Proof.
+    intro I. unfold getitem, miss. destruct a as [x|k]; simpl.
+    - destruct (as_key x) as [k|] eqn:A.
+      + destruct (as_key_self x k A) as [-> _]. destruct (lookup (key x) d); reflexivity.
+      + destruct (lookup (key x) d); reflexivity.
+    - destruct (lookup k d) as [y|] eqn:L; auto.
+      destruct (key_of_key k) as [k'|] eqn:Kk; auto.
+      apply key_of_key_id in Kk. subst k'. now rewrite L.
+  Qed.
+
+  Lemma member_own enf d y : Inv d -> In y (vals d) -> member enf d (AItem y) = true.
+  Proof.
+    intros I H. unfold Spec.member. rewrite (inv_lookup_own d y I H).
+    now rewrite ieqb_refl, orb_true_r.
+  Qed.
+
+  Lemma drop_head k y d : NoDup (keys ((k, y) :: d)) -> drop k ((k, y) :: d) = d.
+  Proof.
+    intro N. inversion N; subst. unfold dict_del. simpl. rewrite keqb_refl. simpl.
+    apply filter_all. intros [j z] Hj. simpl. destruct (keqb k j) eqn:E; auto.
+    apply keqb_eq in E. subst j. exfalso. apply H1. apply in_map_iff. exists (k, z); auto.
+  Qed.
+
+  (* pop removes the oldest entry *)
+  Lemma pop_spec enf k y d : Inv ((k, y) :: d) ->
+    pop key keqb ieqb as_key as_item key_of_key enf ((k, y) :: d) = (Ok (RItem y), d).
+  Proof.
+    intro I. unfold pop. f_equal. rewrite discard_spec by auto.
+    rewrite member_own by (auto; simpl; auto). simpl.
+    pose proof (inv_key _ k y I (or_introl eq_refl)). subst k.
+    apply drop_head. apply I.
+  Qed.
+
+  Lemma clear_loop_spec enf fuel : forall d, Inv d -> (length d < fuel)%nat ->
+    clear_loop key keqb ieqb as_key as_item key_of_key fuel enf d = (Ok RNone, []).
+  Proof.
+    induction fuel as [|f IH]; intros d I L; [lia|].
+    destruct d as [|[k y] d].
+    - reflexivity.
+    - cbn [clear_loop]. rewrite pop_spec by auto. apply IH.
+      + eapply inv_tail; eauto.
+      + simpl in L. lia.
+  Qed.
+
+  Lemma clear_spec enf d : Inv d ->
+    clear key keqb ieqb as_key as_item key_of_key enf d = (Ok RNone, []).
+  Proof. intro I. unfold clear. apply clear_loop_spec; auto. Qed.
+
+  (* ================= construction of new containers ================= *)
+  Definition put_all (xs : list item) (d : dict) : dict :=
+    fold_left (fun d x => put (key x) x d) xs d.
+  Definition agrees (d : dict) (x : item) : bool :=
+    match lookup (key x) d with Some y => ieqb y x | None => true end.
+  Notation consistent := (consistent key keqb ieqb).
+  Notation fresh := (fresh key keqb ieqb valid).
+  Notation from_iterable := (from_iterable key keqb ieqb valid).
+  Notation construct_loop := (construct_loop key keqb ieqb).
+  Notation construct_plain := (construct_plain key keqb ieqb).
+
+  Lemma the_map_put_all xs : the_map xs = put_all xs [].
+  Proof. reflexivity. Qed.
+
+  Lemma inv_put_all xs : forall d, Inv d -> Inv (put_all xs d).
+  Proof.
+    induction xs as [|x xs IH]; intros d I; simpl; auto. apply IH. now apply inv_put.
+  Qed.
+
+  Lemma inv_the_map xs : Inv (the_map xs).
+  Proof. apply inv_put_all. apply inv_nil. Qed.
+
+  Lemma keys_put_all_In xs : forall d k,
+    In k (keys (put_all xs d)) <-> In k (keys d) \/ In k (map key xs).
+  Proof.
+    induction xs as [|x xs IH]; intros d k; simpl; [tauto|].
+    rewrite IH, keys_put. destruct (has (key x) d) eqn:M.
+    - apply has_In in M. split; [tauto|]. intros [H|[<-|H]]; auto.
+    - rewrite in_app_iff. simpl. tauto.
+  Qed.
+
+  Lemma consistent_iff l :
+    consistent l = true <-> forall a b, In a l -> In b l -> key a = key b -> a = b.
+  Proof.
+    unfold Spec.consistent. rewrite forallb_forall. split.
+    - intros H a b Ha Hb E. specialize (H a Ha). rewrite forallb_forall in H.
+      specialize (H b Hb). apply orb_true_iff in H. destruct H as [H|H].
+      + apply negb_true_iff, keqb_neq in H. contradiction.
+      + now apply ieqb_eq.
+    - intros H a Ha. apply forallb_forall. intros b Hb.
+      destruct (keqb (key a) (key b)) eqn:E; simpl; auto.
+      apply keqb_eq in E. apply ieqb_eq. auto.
+  Qed.
+
+  Lemma agrees_iff d l :
+    forallb (agrees d) l = true <->
+    forall z, In z l -> forall y, lookup (key z) d = Some y -> y = z.
+  Proof.
+    rewrite forallb_forall. unfold agrees. split.
+    - intros H z Hz y L. specialize (H z Hz). rewrite L in H. now apply ieqb_eq.
+    - intros H z Hz. destruct (lookup (key z) d) as [y|] eqn:L; auto.
+      apply ieqb_eq. eapply H; eauto.
+  Qed.
+
+  Lemma construct_loop_false xs : forall d, construct_loop false xs d = Ok (put_all xs d).
+  Proof. induction xs as [|x xs IH]; intro d; simpl; auto. Qed.
+
+  Lemma construct_loop_true xs : forall d,
+    construct_loop true xs d =
+      if forallb (agrees d) xs && consistent xs then Ok (put_all xs d) else Err ValueErr.
+  Proof.
+    induction xs as [|x xs IH]; intro d; [reflexivity|].
+    cbn [Model.construct_loop]. unfold add_untyped, clashes. cbn [andb].
+    change (forallb (agrees d) (x :: xs)) with (agrees d x && forallb (agrees d) xs).
+    unfold agrees at 1.
+    destruct (lookup (key x) d) as [y|] eqn:L.
+    - destruct (ieqb y x) eqn:E; simpl; auto.
+      apply ieqb_eq in E. subst y. rewrite IH. simpl.
+      replace (forallb (agrees (put (key x) x d)) xs && consistent xs)
+        with (forallb (agrees d) xs && consistent (x :: xs)); auto.
+      apply bool_iff. rewrite !andb_true_iff, !agrees_iff, !consistent_iff. split.
+      + intros [A C]. split.
+        * intros z Hz w. rewrite lookup_put. destruct (keqb (key z) (key x)) eqn:Ek.
+          -- intro Hw. inversion Hw; subst. apply keqb_eq in Ek. apply C; simpl; auto.
+          -- apply A; auto.
+        * intros a b Ha Hb. apply C; simpl; auto.
+      + intros [A C]. split.
+        * intros z Hz w Lw. destruct (keqb (key z) (key x)) eqn:Ek.
+          -- apply keqb_eq in Ek. assert (x = z).
+             { apply (A z Hz). rewrite lookup_put, Ek, keqb_refl. reflexivity. }
+             subst z. congruence.
+          -- apply (A z Hz). now rewrite lookup_put, Ek.
+        * assert (X : forall z, In z xs -> key x = key z -> x = z).
+          { intros z Hz Ek. apply (A z Hz). rewrite lookup_put.
+            rewrite <- Ek. now rewrite keqb_refl. }
+          intros a b [<-|Ha] [<-|Hb] Ek; auto. symmetry. apply X; auto.
+    - simpl. rewrite IH.
+      replace (forallb (agrees (put (key x) x d)) xs && consistent xs)
+        with (forallb (agrees d) xs && consistent (x :: xs)); auto.
+      apply bool_iff. rewrite !andb_true_iff, !agrees_iff, !consistent_iff. split.
+      + intros [A C]. split.
+        * intros z Hz w. rewrite lookup_put. destruct (keqb (key z) (key x)) eqn:Ek.
+          -- intro Hw. inversion Hw; subst. apply keqb_eq in Ek. apply C; simpl; auto.
+          -- apply A; auto.
+        * intros a b Ha Hb. apply C; simpl; auto.
+      + intros [A C]. split.
+        * intros z Hz w Lw. destruct (keqb (key z) (key x)) eqn:Ek.
+          -- apply keqb_eq in Ek. rewrite Ek in Lw. congruence.
+          -- apply (A z Hz). now rewrite lookup_put, Ek.
+        * assert (X : forall z, In z xs -> key x = key z -> x = z).
+          { intros z Hz Ek. apply (A z Hz). rewrite lookup_put.
+            rewrite <- Ek. now rewrite keqb_refl. }
+          intros a b [<-|Ha] [<-|Hb] Ek; auto. symmetry. apply X; auto.
+  Qed.
+
+  Lemma construct_plain_spec enf xs :
+    construct_plain enf xs =
+      if enf && negb (consistent xs) then Err ValueErr else Ok (the_map xs).
+  Proof.
+    unfold Model.construct_plain. destruct enf; simpl.
+    - rewrite construct_loop_true.
+      assert (forallb (agrees []) xs = true) as ->.
+      { apply forallb_forall. intros z _. reflexivity. }
+      simpl. destruct (consistent xs); reflexivity.
+    - apply construct_loop_false.
+  Qed.
+
+  (* _from_iterable builds exactly the specified new container *)
+  Lemma from_iterable_fresh enf xs : from_iterable enf xs = fresh enf xs.
+  Proof.
+    unfold Model.from_iterable, Spec.fresh. rewrite construct_plain_spec.
+    destruct (enf && negb (consistent xs)); reflexivity.
+  Qed.
+
+  Lemma fresh_ok enf xs m : fresh enf xs = Ok m -> m = the_map xs /\ Inv m /\ TInv m.
+  Proof.
+    unfold Spec.fresh. destruct (enf && negb (consistent xs)); [discriminate|].
+    destruct (forallb valid (vals (the_map xs))) eqn:V; [|discriminate].
+    intro H. inversion H; subst. split; [reflexivity|]. split; [apply inv_the_map|exact V].
+  Qed.
+
+  (* items with pairwise different keys are stored as they come *)
+  Lemma NoDup_map_inj {A B} (f : A -> B) l a b :
+    NoDup (map f l) -> In a l -> In b l -> f a = f b -> a = b.
+  Proof.
+    induction l as [|x l IH]; simpl; intros N Ha Hb E; [contradiction|].
+    inversion N; subst. destruct Ha as [<-|Ha], Hb as [<-|Hb]; auto.
+    - exfalso. apply H1. rewrite E. now apply in_map.
+    - exfalso. apply H1. rewrite <- E. now apply in_map.
+  Qed.
+
+  Lemma put_all_fresh xs : forall d,
+    (forall x, In x xs -> has (key x) d = false) -> NoDup (map key xs) ->
+    put_all xs d = d ++ pairs xs.
+  Proof.
+    induction xs as [|x xs IH]; intros d Hd N; simpl.
+    - now rewrite app_nil_r.
+    - inversion N; subst.
+      assert (Pf : put (key x) x d = d ++ [(key x, x)])
+        by (unfold dict_set; rewrite Hd by (simpl; auto); reflexivity).
+      rewrite Pf.
+      rewrite IH; auto.
+      + now rewrite <- app_assoc.
+      + intros y Hy. destruct (has (key y) (d ++ [(key x, x)])) eqn:E; auto.
+        apply has_In in E. rewrite map_app, in_app_iff in E. simpl in E.
+        destruct E as [E|[E|[]]].
+        * apply has_In in E. rewrite Hd in E; [discriminate|simpl; auto].
+        * exfalso. apply H1. rewrite E. now apply in_map.
+  Qed.
+
+  Lemma the_map_nodup xs : NoDup (map key xs) -> the_map xs = pairs xs.
+  Proof. intro N. rewrite the_map_put_all, put_all_fresh; auto. Qed.
+
+  Lemma consistent_nodup xs : NoDup (map key xs) -> consistent xs = true.
+  Proof. intro N. apply consistent_iff. intros a b. now apply NoDup_map_inj. Qed.
+
+  Lemma vals_pairs xs : vals (pairs xs) = xs.
+  Proof. unfold vals, pairs. rewrite map_map. simpl. apply map_id. Qed.
+
+  Lemma fresh_nodup enf xs : NoDup (map key xs) ->
+    fresh enf xs = if forallb valid xs then Ok (pairs xs) else Err TypeErr.
+  Proof.
+    intro N. unfold Spec.fresh. rewrite consistent_nodup, the_map_nodup, vals_pairs by auto.
+    now rewrite andb_false_r.
+  Qed.
+
+  (* a sub-map of a well-typed map, rebuilt through _from_iterable, is that sub-map *)
+  Lemma vals_filter f (d : dict) :
+    Inv d -> pairs (filter f (vals d)) = filter (fun e => f (snd e)) d.
+  Proof.
+    intro I. rewrite (inv_pairs d I) at 2. unfold pairs, vals.
+    induction d as [|[k y] d IH]; simpl; auto.
+    assert (Inv d) by (eapply inv_tail; eauto).
+    destruct (f y); simpl; rewrite IH; auto.
+  Qed.
+
+  Lemma nodup_filter_keys f (l : list item) :
+    NoDup (map key l) -> NoDup (map key (filter f l)).
+  Proof.
+    induction l as [|x l IH]; simpl; intro N; [constructor|].
+    inversion N; subst. destruct (f x); simpl; auto. constructor; auto.
+    intro H. apply H1. apply in_map_iff in H. destruct H as [y [E Hy]].
+    apply filter_In in Hy. rewrite <- E. apply in_map. tauto.
+  Qed.
+
+  Lemma fresh_submap enf f d : Inv d -> TInv d ->
+    fresh enf (filter f (vals d)) = Ok (filter (fun e => f (snd e)) d).
+  Proof.
+    intros I T. rewrite fresh_nodup by (apply nodup_filter_keys, inv_vals_nodup; auto).
+    rewrite vals_filter by auto.
+    assert (forallb valid (filter f (vals d)) = true) as ->; auto.
+    apply forallb_forall. intros x Hx. apply filter_In in Hx.
+    unfold TInv in T. rewrite forallb_forall in T. apply T. tauto.
+  Qed.
+
+  Lemma construct_plain_submap eb f d : Inv d ->
+    construct_plain eb (filter f (vals d)) = Ok (filter (fun e => f (snd e)) d).
+  Proof.
+    intro I. rewrite construct_plain_spec.
+    rewrite consistent_nodup, the_map_nodup by (apply nodup_filter_keys, inv_vals_nodup; auto).
+    rewrite andb_false_r. now rewrite vals_filter.
+  Qed.
+
+End Proofs.
